@@ -26,7 +26,8 @@ evaluated with the MySQL text run on DuckDB configured to sort NULLs as MySQL do
 the CASE simulation of NULLS FIRST / LAST, which is never generated for the four real pairs.
 
 Bound.  The fixed databases DBS below (two tables t(id, a, b, s, d), u(id, a, c); NULL-bearing integer / text /
-timestamp columns; 3 instances) x the enumerated query families of queries() x 4 dialect pairs.  Exhaustive over that
+timestamp columns; 3 instances; thorough: + 2 grid instances holding every pair of a 5-value domain, and every direction
+/ sort key in the window and multi-key ORDER BY families) x the enumerated query families of queries() x 4 dialect pairs.  Exhaustive over that
 product, nothing sampled.  `seed` is unused.
 
 Keys:  c02:<src>-<dst>:<family>:<shape>:<error|rows|order>     (shape = the construction tag of the query, not its text)
@@ -69,10 +70,34 @@ DBS = [
 ]
 
 
+def _grid_db(values, strings, dates):
+    """every pair (a, b) over `values` as one row of t; s and d cycle through the given lists; u holds every value once"""
+    t = []
+    for i, (a, b) in enumerate(itertools.product(values, repeat=2), 1):
+        t.append((i, a, b, strings[i % len(strings)], dates[i % len(dates)]))
+    u = [(i, v, strings[(i * 2) % len(strings)]) for i, v in enumerate(values + [values[1]], 1)]
+    return {"t": t, "u": u}
+
+
+# thorough: two larger instances with every combination of a small value domain (NULL, negative, zero, duplicates)
+DBS_THOROUGH = DBS + [
+    _grid_db([None, 0, 1, 2, -1], [None, "", "a", "A", "ab", "b ", "%"], [None, "2020-02-29 23:59:59", "1970-01-01 00:00:00", "2021-03-04 05:06:07"]),
+    _grid_db([None, 3, 7, 3, 10], ["x", None, "X", "xy", "10", "9"], ["2000-01-01 00:00:00", None, "2038-01-19 03:14:07"]),
+]
+ACTIVE_DBS = DBS
+
+
 # ---------------------------------------------------------------------------------------------------- queries
 def Q(family, shape, sql, ordered=True):
     """sql: one text valid in both dialects, or {"sqlite": text | None, "duckdb": text | None}"""
     return {"family": family, "shape": shape, "sql": sql, "ordered": ordered}
+
+
+def H(text):
+    """stable shape tag of a hand-listed expression / query: a short digest, so editing the list does not renumber the rest"""
+    import hashlib
+
+    return hashlib.sha1(text.encode()).hexdigest()[:8]
 
 
 DIRS = [("", "nodir"), (" ASC", "asc"), (" DESC", "desc")]
@@ -84,16 +109,18 @@ WINDOW_FNS = [("rownum", "ROW_NUMBER()"), ("rank", "RANK()"), ("denserank", "DEN
               ("first", "FIRST_VALUE(id)"), ("last", "LAST_VALUE(id)")]
 
 
-def order_queries():
+def order_queries(tier="quick"):
     out = []
+    dirs2 = DIRS[::2] if tier == "quick" else DIRS
+    wkeys = SHORT_KEYS if tier == "quick" else ORDER_KEYS
     for (kt, k), (d, dt), (n, nt) in itertools.product(ORDER_KEYS, DIRS, NULLS):
         out.append(Q("order-top", f"{kt}.{dt}.{nt}", f"SELECT id, a, b FROM t ORDER BY {k}{d}{n}, id"))
-    for (kt, k), (d, dt), (n, nt) in itertools.product(SHORT_KEYS, DIRS[::2], NULLS):
+    for (kt, k), (d, dt), (n, nt) in itertools.product(SHORT_KEYS, dirs2, NULLS):
         for lt, lim in (("l2", "LIMIT 2"), ("l2o1", "LIMIT 2 OFFSET 1"), ("l3o2", "LIMIT 3 OFFSET 2")):
             out.append(Q("order-limit", f"{kt}.{dt}.{nt}.{lt}", f"SELECT id FROM t ORDER BY {k}{d}{n}, id {lim}"))
-    for (d1, dt1), (n1, nt1), (d2, dt2), (n2, nt2) in itertools.product(DIRS[::2], NULLS, DIRS[::2], NULLS):
+    for (d1, dt1), (n1, nt1), (d2, dt2), (n2, nt2) in itertools.product(dirs2, NULLS, dirs2, NULLS):
         out.append(Q("order-two", f"b.{dt1}.{nt1}.a.{dt2}.{nt2}", f"SELECT id FROM t ORDER BY b{d1}{n1}, a{d2}{n2}, id"))
-    for (d, dt), (n, nt) in itertools.product(DIRS[::2], NULLS):
+    for (d, dt), (n, nt) in itertools.product(dirs2, NULLS):
         out.append(Q("order-alias", f"alias.{dt}.{nt}", f"SELECT id, a + b AS k FROM t ORDER BY k{d}{n}, id"))
         out.append(Q("order-alias", f"position.{dt}.{nt}", f"SELECT id, a + b AS k FROM t ORDER BY 2{d}{n}, 1"))
         out.append(Q("order-alias", f"shadow-coalesce.{dt}.{nt}", f"SELECT id, COALESCE(a, 0) AS a FROM t ORDER BY a{d}{n}, id"))
@@ -109,13 +136,13 @@ def order_queries():
         out.append(Q("order-group", f"agg-key.{dt}.{nt}", f"SELECT b, SUM(a) AS n FROM t GROUP BY b ORDER BY SUM(a){d}{n}, b"))
         out.append(Q("order-group", f"agg-alias.{dt}.{nt}", f"SELECT b, MAX(a) AS n FROM t GROUP BY b ORDER BY n{d}{n}, b"))
         out.append(Q("order-join", f"join-key.{dt}.{nt}", f"SELECT t.id, u.id FROM t LEFT JOIN u ON t.a = u.a ORDER BY u.a{d}{n}, t.id, u.id"))
-    for (ft, fn), (kt, k), (d, dt), (n, nt) in itertools.product(WINDOW_FNS, SHORT_KEYS, DIRS[::2], NULLS):
+    for (ft, fn), (kt, k), (d, dt), (n, nt) in itertools.product(WINDOW_FNS, wkeys, dirs2, NULLS):
         out.append(Q("order-window", f"{ft}.{kt}.{dt}.{nt}", f"SELECT id, {fn} OVER (ORDER BY {k}{d}{n}, id) AS w FROM t ORDER BY id"))
-    for (ft, fn), (d, dt), (n, nt) in itertools.product(WINDOW_FNS[:5], DIRS[::2], NULLS):
+    for (ft, fn), (d, dt), (n, nt) in itertools.product(WINDOW_FNS[:5], dirs2, NULLS):
         out.append(Q("order-window", f"{ft}.partition.{dt}.{nt}", f"SELECT id, {fn} OVER (PARTITION BY b ORDER BY a{d}{n}, id) AS w FROM t ORDER BY id"))
         out.append(Q("order-window", f"{ft}.rows-frame.{dt}.{nt}",
                      f"SELECT id, {fn} OVER (ORDER BY a{d}{n}, id ROWS BETWEEN 1 PRECEDING AND CURRENT ROW) AS w FROM t ORDER BY id"))
-    for (d, dt), (n, nt) in itertools.product(DIRS[::2], NULLS):
+    for (d, dt), (n, nt) in itertools.product(dirs2, NULLS):
         # a select-list alias has the name of a column used as a window sort key: the window sees the column
         out.append(Q("order-window-shadow", f"coalesce.{dt}.{nt}", f"SELECT id, COALESCE(a, 0) AS a, ROW_NUMBER() OVER (ORDER BY a{d}{n}, id) AS rn FROM t ORDER BY id"))
         out.append(Q("order-window-shadow", f"neg.{dt}.{nt}", f"SELECT id, -a AS a, RANK() OVER (ORDER BY a{d}{n}) AS rn FROM t ORDER BY id"))
@@ -146,49 +173,49 @@ def expr_queries():
             add("expr-arith", f"{OPN[o1]}.{OPN[o2]}.right.{vt}", f"{x} {o1} ({y} {o2} {z})")
     for i, e in enumerate(["-a + b", "-(a + b)", "- a * b", "-a - -b", "+a - b", "a - (b - 1)", "a - b - 1", "a / b / 2", "a / (b / 2)", "a * (b + 1) - a % (b + 1)",
                            "a / 2", "a / 2.0", "a * 1.5", "7 / 2", "-7 / 2", "-7 % 3", "7 % -3", "a / 0", "a % 0", "1.0 * a / b", "(a + b) / 2", "a * b / 2 * 2"]):
-        add("expr-arith-misc", f"m{i}", e)
+        add("expr-arith-misc", H(e), e)
     for i, e in enumerate(["a || b", "s || a", "s || s || 'x'", "a || b || s", "-a || b", "a || b = '12'", "s || 'x' = 'abx'", "s || a IS NULL", "a || b IN ('12', '32')",
                            "a || b BETWEEN '10' AND '40'", "s || NULL", "COALESCE(s, '') || '-' || COALESCE(a, 0)", "a || 'x' || b", "s || 'x' LIKE 'a%'", "NOT s || 'x' = 'abx'",
                            "LENGTH(s || 'x') + 1", "s || 'x' || a < 'b'", "CASE WHEN a > 1 THEN s || 'p' ELSE 'q' || s END"]):
-        add("expr-concat", f"c{i}", e)
+        add("expr-concat", H(e), e)
     # || next to arithmetic: well typed in DuckDB only (int || int -> text), where || binds looser than + - * / %
     for i, e in enumerate(["a + b || 2", "a || b + 2", "a * b || 2", "a || b * 2", "a - b || 1", "a % b || 1", "'x' || a + 1", "a // b || 1", "(a || b) || 2 * 3", "a || (b + 2)", "-a + b || s"]):
-        add("expr-concat-arith", f"d{i}", {"sqlite": None, "duckdb": e})
+        add("expr-concat-arith", H(e), {"sqlite": None, "duckdb": e})
     for i, e in enumerate(["a < b", "a <= b", "a = b", "a <> b", "a != b", "a > 1 AND b > 1", "a > 1 OR b > 1", "NOT a > 1", "NOT a > 1 AND b > 1", "NOT (a > 1 AND b > 1)",
                            "a > 1 OR b > 1 AND a < 5", "(a > 1 OR b > 1) AND a < 5", "a IS NULL", "a IS NOT NULL", "a IS NULL OR b IS NULL", "a BETWEEN 1 AND 3",
                            "a NOT BETWEEN b AND 3", "a BETWEEN b AND b + 2 AND b > 0", "a IN (1, 3)", "a IN (1, NULL)", "a NOT IN (1, NULL)", "a NOT IN (1, 3)", "a IN (b, 3)",
                            "s LIKE 'a%'", "s NOT LIKE '%b'", "s LIKE 'A%'", "s LIKE '_b%'", "a + 1 > b * 2", "a & b", "a | b", "~a",
                            "NOT a IS NULL", "a IS NULL = b IS NULL", "NOT a = b OR a < b", "a <> 3 AND NOT b IN (1, 2)", "a > b IS NULL", "NOT NOT a > 1", "a = 1 OR NULL",
                            "a > 1 AND NULL", "s = 'ab' OR s = ''", "s < 'b'", "s > 'B'", "s BETWEEN 'a' AND 'b'"]):
-        add("expr-logic", f"p{i}", e)
+        add("expr-logic", H(e), e)
     add("expr-logic", "is-column", {"sqlite": "a IS b", "duckdb": "a IS NOT DISTINCT FROM b"})
     add("expr-logic", "is-not-column", {"sqlite": "a IS NOT b", "duckdb": "a IS DISTINCT FROM b"})
     add("expr-logic", "double-equals", {"sqlite": "a == b", "duckdb": "a == b"})
     add("expr-logic", "glob", {"sqlite": "s GLOB 'a*'", "duckdb": "s GLOB 'a*'"})
     for i, e in enumerate(["CASE WHEN a > b THEN 'gt' WHEN a = b THEN 'eq' ELSE 'other' END", "CASE a WHEN 1 THEN 'one' WHEN 3 THEN 'three' END", "CASE WHEN a IS NULL THEN b ELSE a END",
                            "CASE b WHEN NULL THEN 1 ELSE 0 END", "CASE WHEN a > 1 THEN a END + 1", "CASE WHEN a THEN 'y' ELSE 'n' END", "CASE WHEN s = '' THEN NULL ELSE s END"]):
-        add("expr-case", f"k{i}", e)
+        add("expr-case", H(e), e)
     fns = ["COALESCE(a, b, 0)", "COALESCE(a, b)", "NULLIF(a, b)", "NULLIF(a, 3)", "IFNULL(a, 0)", "ABS(a)", "ABS(a - 4)", "LENGTH(s)", "UPPER(s)", "LOWER(s)", "SUBSTR(s, 2)",
            "SUBSTR(s, 1, 2)", "SUBSTR(s, 0, 2)", "SUBSTR(s, -1)", "SUBSTR(s, 2, 10)", "TRIM(s)", "LTRIM(s)", "RTRIM(s)", "REPLACE(s, 'a', 'zz')", "INSTR(s, 'b')", "ROUND(a / 2.0)", "ROUND(a * 1.25, 1)",
            "ROUND(2.5)", "ROUND(-2.5)", "CAST(a AS TEXT)", "CAST(a AS TEXT) || 'x'", "CAST('12' AS INTEGER) + a", "CAST(a AS REAL) / 2", "CAST(a / 2.0 AS INTEGER)", "CAST(-a / 2.0 AS INTEGER)",
            "LENGTH(s) + LENGTH(COALESCE(s, 'zz'))", "COALESCE(NULLIF(s, ''), 'empty')", "UPPER(SUBSTR(s, 1, 1)) || LOWER(SUBSTR(s, 2))",
            "SIGN(a)", "IIF(a > 2, 'big', 'small')", "TRIM(s, 'a')", "a IS TRUE", "a IS NOT FALSE", "(a > 1) IS TRUE", "NOT a", "a AND b", "a OR b"]
     for i, e in enumerate(fns):
-        add("expr-func", f"f{i}", e)
+        add("expr-func", H(e), e)
     dd = ["a << 1", "a >> 1", "GREATEST(a, b)", "LEAST(a, b)", "a // b", "a ** 2", "LEN(s)", "s[1:2]", "CONCAT(s, a)", "CONCAT_WS('-', s, a, b)", "STRPOS(s, 'b')", "LEFT(s, 2)", "RIGHT(s, 1)", "REVERSE(s)", "REPEAT(s, 2)",
           "a::VARCHAR || 'x'", "s::INTEGER", "IF(a > 2, 'big', 'small')", "s ILIKE 'a%'", "s SIMILAR TO 'a.*'", "LIST_VALUE(a, b)[1]", "STARTS_WITH(s, 'a')", "CONTAINS(s, 'b')",
           "LPAD(s, 4, '*')", "a BETWEEN SYMMETRIC 3 AND 1", "XOR(a, b)", "BIT_COUNT(a)", "EVEN(a)", "a IN (SELECT a FROM u)", "FLOOR(a / 2)", "CEIL(a / 2)", "TRUNC(a / 2)", "a / 2 * 2", "FDIV(a, 2)", "a % 2 = 1",
           "ISNULL(a)", "a NOTNULL", "DATE_PART('year', d)", "YEAR(d) + MONTH(d)", "DATE_TRUNC('month', d)::VARCHAR", "CAST(d AS DATE)::VARCHAR", "d + INTERVAL 1 DAY > TIMESTAMP '2020-01-02 12:00:00'",
           "DATE_DIFF('day', d, TIMESTAMP '2022-01-01 00:00:00')", "EPOCH(d)", "DAYOFWEEK(d)", "d::DATE = DATE '2020-01-02'", "COUNT(*) OVER ()", "a IS NOT DISTINCT FROM NULL"]
     for i, e in enumerate(dd):
-        add("expr-duckdb", f"d{i}", {"sqlite": None, "duckdb": e})
+        add("expr-duckdb", H(e), {"sqlite": None, "duckdb": e})
     ss = ["a << 1", "a >> 1", "a = b = 1", "CAST(s AS INTEGER)", "MAX(a, b)", "MIN(a, b)", "MAX(a, b, 2)", "(a > 1) + (b > 1)", "(a || b) * 2", "a + b || 2", "a || b * 2", "a * b || 2", "a || b + 2", "'x' || a + 1", "a < b || 2",
           "a / b * 1.0", "IFNULL(s, 'n') || IFNULL(a, 'n')", "DATE(d)", "TIME(d)", "DATETIME(d)", "DATE(d, '+1 day')", "DATE(d, 'start of month')", "JULIANDAY(d) > 2459000", "UNIXEPOCH(d)",
-          "SUBSTRING(s, 2)", "s REGEXP 'a'", "TOTAL(a) OVER ()", "GROUP_CONCAT(s, ',') OVER (ORDER BY id)", "a NOT NULL", "a ISNULL", "a NOTNULL", "'1' + a", "s + 0", "'3' > a", "a = '1'", "+s", "-s",
+          "SUBSTRING(s, 2)", "s REGEXP 'a'", "TOTAL(a) OVER ()", "a NOT NULL", "a ISNULL", "a NOTNULL", "'1' + a", "s + 0", "'3' > a", "a = '1'", "+s", "-s",
           "LENGTH(a)", "SUBSTR(a, 1, 1)", "a || ''", "CAST(d AS TEXT)", "d < '2020-06-01'", "d BETWEEN '2020-01-01' AND '2020-12-31'", "s COLLATE NOCASE = 'AB'", "LIKELY(a > 1)", "RANDOM() IS NOT NULL",
           "ROUND(a / 2)", "a / 2 + a % 2", "(a + b) / 2.0", "MAX(a, 0) - MIN(b, 0)", "NULLIF(a / b, 0)", "COALESCE(a / b, -1)", "a * 1.0 / b", "SUM(a) OVER (ORDER BY id) / 2", "AVG(a) OVER ()"]
     for i, e in enumerate(ss):
-        add("expr-sqlite", f"s{i}", {"sqlite": e, "duckdb": None})
+        add("expr-sqlite", H(e), {"sqlite": e, "duckdb": None})
     for f, ft in [("%Y", "Y"), ("%m", "m"), ("%d", "d"), ("%H", "H"), ("%M", "M"), ("%S", "S"), ("%Y-%m-%d", "ymd"), ("%H:%M:%S", "hms"), ("%j", "j"), ("%w", "w"), ("%Y-%m-%dT%H:%M", "iso"),
                   ("%%", "pct"), ("%s", "epoch"), ("%f", "frac"), ("%W", "W"), ("%Y%m%d %H%M%S", "compact")]:
         add("expr-strftime", ft, {"sqlite": f"STRFTIME('{f}', d)", "duckdb": f"STRFTIME(d, '{f}')"})
@@ -221,7 +248,7 @@ def struct_queries():
         "SELECT b, COUNT(*) FILTER (WHERE a > 1) FROM t GROUP BY b", "SELECT SUM(a) FILTER (WHERE b = 2), COUNT(*) FILTER (WHERE s IS NULL) FROM t", "SELECT COUNT(*) FROM t GROUP BY b",
         "SELECT MAX(a) - MIN(a) FROM t GROUP BY b HAVING MAX(a) IS NOT NULL", "SELECT b, SUM(DISTINCT a) FROM t GROUP BY b", "SELECT MIN(d), MAX(s) FROM t WHERE d IS NOT NULL AND 1 = 0",
     ]):
-        add("group", f"g{i}", q)
+        add("group", H(q), q)
     ops = [("union", "UNION"), ("unionall", "UNION ALL"), ("intersect", "INTERSECT"), ("except", "EXCEPT")]
     A, B, C = "SELECT a FROM t", "SELECT a FROM u", "SELECT b FROM t"
     for (t1, o1) in ops:
@@ -249,7 +276,7 @@ def struct_queries():
         "SELECT 1, 2.5, 'x', NULL, TRUE, FALSE, 1e2, .5, 0x10, 'it''s', X'41'", "SELECT id FROM t LIMIT 0", "SELECT COUNT(*) FROM (SELECT id FROM t ORDER BY id LIMIT 2 OFFSET 5) AS x",
         "SELECT id FROM t ORDER BY id LIMIT 2, 3", "SELECT id FROM t ORDER BY id DESC LIMIT 1 + 1",
     ]):
-        add("subquery", f"q{i}", q)
+        add("subquery", H(q), q)
     for i, q in enumerate([
         "SELECT id FROM t QUALIFY ROW_NUMBER() OVER (PARTITION BY b ORDER BY a, id) = 1", "SELECT id, RANK() OVER (ORDER BY a DESC) AS r FROM t QUALIFY r <= 2",
         "SELECT id FROM t WHERE a IS NOT NULL QUALIFY SUM(a) OVER (PARTITION BY b) > 3", "SELECT b, COUNT(*) AS n FROM t GROUP BY b QUALIFY ROW_NUMBER() OVER (ORDER BY COUNT(*) DESC, b) = 1",
@@ -264,7 +291,7 @@ def struct_queries():
         "SELECT id, a, PERCENT_RANK() OVER (ORDER BY a NULLS FIRST, id) FROM t", "SELECT id, COUNT(a) OVER (PARTITION BY b), MAX(a) OVER (PARTITION BY b ORDER BY id) FROM t",
     ]):
         # the first 13 are the DuckDB-side constructs the property names (QUALIFY, DISTINCT ON, SEMI / ANTI joins)
-        out.append(Q("duckdb-side" if i < 13 else "duckdb-extra", f"x{i}", {"sqlite": None, "duckdb": q}, False))
+        out.append(Q("duckdb-side" if i < 13 else "duckdb-extra", H(q), {"sqlite": None, "duckdb": q}, False))
     for i, q in enumerate([
         "SELECT id, SUM(a) OVER (ORDER BY id ROWS BETWEEN UNBOUNDED PRECEDING AND CURRENT ROW) FROM t", "SELECT id, LEAD(a, 1, -1) OVER (ORDER BY id) FROM t", "SELECT id, NTILE(2) OVER (ORDER BY id) FROM t",
         "SELECT id, COUNT(a) OVER (PARTITION BY b), MAX(a) OVER (PARTITION BY b ORDER BY id) FROM t", "SELECT id, SUM(a) OVER (ORDER BY b) FROM t", "SELECT id, SUM(a) OVER (ORDER BY b RANGE BETWEEN 1 PRECEDING AND CURRENT ROW) FROM t",
@@ -274,12 +301,12 @@ def struct_queries():
         "SELECT id FROM t ORDER BY id LIMIT -1 OFFSET 2", "SELECT id FROM t WHERE a IS 3", "SELECT id FROM t WHERE a IS NOT 3", "SELECT id, a FROM t ORDER BY a COLLATE NOCASE, id", "SELECT s FROM t ORDER BY s COLLATE NOCASE DESC, id",
         "SELECT id FROM t ORDER BY s, id", "SELECT s, COUNT(*) FROM t GROUP BY s COLLATE NOCASE", "SELECT DISTINCT LOWER(s) FROM t", "REPLACE INTO u SELECT 9, 9, 'z'", "SELECT CAST(a AS BOOLEAN), CAST(s AS NUMERIC) FROM t",
     ]):
-        out.append(Q("sqlite-side", f"y{i}", {"sqlite": q, "duckdb": None}, False))
+        out.append(Q("sqlite-side", H(q), {"sqlite": q, "duckdb": None}, False))
     return out
 
 
 def queries(tier):
-    return order_queries() + expr_queries() + struct_queries()
+    return order_queries(tier) + expr_queries() + struct_queries()
 
 
 # ---------------------------------------------------------------------------------------------------- engines
@@ -295,7 +322,7 @@ def engines():
         _ENG.clear()
         _ENG["pid"] = os.getpid()
         lite, duck, mysql = [], [], []
-        for db in DBS:
+        for db in ACTIVE_DBS:
             s = sqlite3.connect(":memory:")
             d = duckdb.connect(":memory:")
             m = duckdb.connect(":memory:")  # a separate database: the setting is per database instance
@@ -393,7 +420,7 @@ def check_item(item):
         res["status"] = "unsupported"
         return res
     # which instances the source engine accepts
-    src_rows = [execute(src, k, sql) for k in range(len(DBS))]
+    src_rows = [execute(src, k, sql) for k in range(len(ACTIVE_DBS))]
     if all(s == "err" for s, _ in src_rows):
         res["status"] = "outside-fragment"
         res["note"] = src_rows[0][1]
@@ -441,6 +468,9 @@ def items_for(tier):
 
 
 def run(tier, seed):
+    global ACTIVE_DBS
+    ACTIVE_DBS = DBS if tier == "quick" else DBS_THOROUGH
+    _ENG.clear()
     items = items_for(tier)
     results = harness.pool_map(check_item, items)
     status, fam, viol, evals, nontrivial = {}, {}, [], 0, 0
@@ -460,7 +490,7 @@ def run(tier, seed):
         "rule": "(query, dialect pair, database instance) triples where the source engine ran the query and returned at least one row, so the comparison had content; "
                 "`evaluations` also counts the transpile call and the instances with an empty source result",
         "bound": f"tier={tier}: {len(queries(tier))} enumerated queries in {len(fam)} families x {len(PAIRS)} dialect pairs (a query is used for a pair when it has a text in the "
-                 f"source dialect) x {len(DBS)} fixed database instances (tables t: {[len(d['t']) for d in DBS]} rows, u: {[len(d['u']) for d in DBS]} rows); SQLite {_sqlite_version()}, DuckDB {_duckdb_version()}",
+                 f"source dialect) x {len(ACTIVE_DBS)} fixed database instances (tables t: {[len(d['t']) for d in ACTIVE_DBS]} rows, u: {[len(d['u']) for d in ACTIVE_DBS]} rows); SQLite {_sqlite_version()}, DuckDB {_duckdb_version()}",
         "exhaustive": True,
         "inputs": len(items),
         "input_families": fam,
@@ -485,6 +515,9 @@ def _duckdb_version():
 
 
 def replay(entry):
+    global ACTIVE_DBS
+    ACTIVE_DBS = DBS_THOROUGH  # DBS is a prefix of it, so instance numbers of either tier resolve
+    _ENG.clear()
     i = entry["input"] if "input" in entry else entry
     st, out = transpile(i["sql"], i["src"], i["dst"])
     if st == "unsupported":
